@@ -131,7 +131,7 @@ CHECKS = {
             dict(name="backlog", run="^TestC13Backlog$", checks=(3, 20), shards=(4, 8), shrinktime="5s"),
             dict(name="many", run="^TestC13ManyValues$", checks=(12, 120), shards=(2, 8), shrinktime="5s"),
             dict(name="concflush", run="^TestC13ConcurrentFlush$", checks=(60, 600), shards=(4, 16), shrinktime="5s"),
-            dict(name="regress", run="^TestRegress(ReverseQuery|FlushEarly)$", shards=(1, 1)),
+            dict(name="regress", run="^TestRegress(ReverseQuery|FlushEarly|InitConflict)$", shards=(1, 1)),
         ],
     ),
     "C14": dict(
@@ -159,6 +159,7 @@ CHECKS = {
         runs=[
             dict(name="enum", run="^TestCrashEnumeration$", shards=(4, 8)),
             dict(name="random", run="^TestRandomTimeKills$", shards=(2, 8)),
+            dict(name="initrace", run="^TestInitRace$", checks=(150, 2000), shards=(2, 8), shrinktime="5s"),
             dict(name="bulk", run="^TestBulkRebuild$", checks=(8, 80), shards=(2, 8), shrinktime="5s"),
             dict(name="regress", run="^TestRegress", shards=(1, 1)),
         ],
